@@ -142,7 +142,9 @@ def model_map_to_index(X, val):
                 return UNCHANGED, X
             b = ('m', P + 'map', ((('s', P + 'str', val), b),))
         if mget(b, KEY):
-            return OUTSIDE, None
+            # the full form (the item says its key itself) keeps working, the docstring says the short forms "also" work
+            pairs.append((a, b))
+            continue
         pairs.append((a, ('m', b[1], b[2] + ((('s', P + 'str', KEY), a),))))
     return DOMAIN, ('m', X[1], tuple(pairs))
 
